@@ -93,6 +93,11 @@ def relational(run):
         rets = [ast.unparse(n.value) for n in ast.walk(f) if isinstance(n, ast.Return) and n.value is not None]
         ok = any("filter_id(instance, id_type)" in r for r in rets)
         checks.append(("LanguageContext.filter_id_for_target#delegates-to-the-target-language's-filter_id", ok, str(rets)[:120]))
+    f = fn("nunavut._namespace:Namespace.get_support_output_folder")
+    if f is not None:
+        rets = [ast.unparse(n.value) for n in ast.walk(f) if isinstance(n, ast.Return) and n.value is not None]
+        ok = rets == ["self._base_output_path"]
+        checks.append(("Namespace.get_support_output_folder#is-the-output-directory-itself", ok, str(rets)[:120]))
     for name, ok, detail in checks:
         run.add_check(name, ok, "E-FX relational shape (AST)", 0, detail)
         if not ok:
@@ -213,6 +218,23 @@ def bounded_tree(run, args):
                         if errs and first is None:
                             first = {"input": {"shape": [(list(s), nm, v) for s, nm, v in items], "root": rootname, "language": lang, "output_dir_spelling": sp,
                                                "order": [str(t) for t in order]}, "why": "; ".join(errs[:3]), "evaluations": n}
+        # the empty type set (what `--generate-support only` builds): support files stay inside the output directory
+        from nunavut.jinja import SupportGenerator
+        for lang in langs:
+            for sp in spellings:
+                out = base / f"oe_{lang}_{sp}"
+                outarg = str(out) + ("/" if sp == "trailing-slash" else "")
+                root = build_namespace_tree([], "", outarg, render.language_context(lang))
+                n += 1
+                errs = []
+                sup = pathlib.Path(root.get_support_output_folder())
+                if sup.resolve() != out.resolve():
+                    errs.append(f"support output folder {sup} is not the output directory {out}")
+                for p in SupportGenerator(root).generate_all(is_dryrun=True):
+                    if out.resolve() not in pathlib.Path(p).resolve().parents:
+                        errs.append(f"support file {p} outside the output directory")
+                if errs and first is None:
+                    first = {"input": {"types": [], "language": lang, "output_dir_spelling": sp}, "why": "; ".join(errs[:3]), "evaluations": n}
         return first, n
     finally:
         shutil.rmtree(base, ignore_errors=True)
